@@ -12,7 +12,14 @@ def cmp_part(line):
     return TIMING.sub("", line)
 
 
-def e_monitor(line):
+def pred_of(line):
+    for f in line.split(" "):
+        if f.startswith("pred="):
+            return f
+    return ""
+
+
+def e_monitor(line, case=""):
     """end-to-end clauses that need no model: the run ended, every probe was answered, and no
     accept-pending or dropped exchange is left behind after the settling time"""
     names = []
@@ -32,6 +39,16 @@ def e_monitor(line):
         elif fld.startswith("tables="):
             if "/p/" in fld or "/d/" in fld:
                 names.append("exchange-not-closed")
+    # scenario-specific expectation: these tags must have been answered on the wire
+    for f in case.split(" "):
+        if f.startswith("er="):
+            got = []
+            for fld in line.split(" "):
+                if fld.startswith("replies="):
+                    got = [x for x in fld[8:].split(",") if x]
+            for t in f[3:].split("."):
+                if t and t not in got:
+                    names.append("answer-lost-in-tx-buffer")
     return sorted(set(names))
 
 
@@ -105,6 +122,17 @@ def main(tier, replay=None):
     diffs, flaky = [], 0
     for key, cl in case_by_key.items():
         if key.startswith("E "):
+            # end-to-end scenarios marked det=1: the model's prediction of deliveries, probes, tables
+            if " det=1 " in cl:
+                mp = pred_of(model.get(key, ""))
+                if pred_of(impl.get(key, "")) != mp:
+                    again = [rerun(key), rerun(key)]
+                    good = [a for a in again if pred_of(a) == mp]
+                    if good:
+                        flaky += 1
+                        impl[key] = good[0]
+                    else:
+                        diffs.append(key)
             continue
         il, ml = impl.get(key, ""), model.get(key, "")
         if cmp_part(il) != ml:
@@ -134,11 +162,11 @@ def main(tier, replay=None):
         verdict = (spec.get(key, key + " missing").split(" ") + ["missing"])[2]
         names = [] if verdict == "ok" else verdict.split(",")
         if key.startswith("E "):
-            names += e_monitor(il)
+            names += e_monitor(il, cl)
             if names:
                 # real clock: a stalled run is re-run once before it counts
                 again = rerun(key)
-                if again and not e_monitor(again):
+                if again and not e_monitor(again, cl):
                     sp = subprocess.run([driver, "spec"], input=(cl + " => " + again.split(" ", 2)[2] + "\n").encode(),
                                         stdout=subprocess.PIPE).stdout.decode().strip().split(" ")
                     if len(sp) > 2 and sp[2] == "ok":
